@@ -6,7 +6,9 @@ package client
 
 import (
 	"fmt"
+	"runtime"
 	"strings"
+	"sync"
 	"testing"
 
 	"github.com/apernet/quic-go"
@@ -93,6 +95,47 @@ func TestVerif_C03(t *testing.T) {
 			}
 		}
 		tr.Probe("clirecv", served)
+	}
+	// replies racing with the application closing the session: feed (here called by the driver, as run() does) must
+	// never hit a closed channel, whatever the interleaving with Close
+	tr.Reset(kit.E{"src": "cliclose-race"})
+	{
+		io := &c03IO{max: 1200}
+		m := &udpSessionManager{io: io, m: make(map[uint32]*udpConn), nextID: 1}
+		for it := 0; it < kit.Pick(4000, 40000); it++ {
+			c, _ := m.NewUDP()
+			uc := c.(*udpConn)
+			stop := make(chan struct{})
+			var wg sync.WaitGroup
+			for g := 0; g < 3; g++ {
+				wg.Add(1)
+				go func() {
+					defer wg.Done()
+					for {
+						select {
+						case <-stop:
+							return
+						default:
+						}
+						msg := &protocol.UDPMessage{SessionID: uc.ID, PacketID: 0, FragID: 0, FragCount: 1, Addr: "9.9.9.9:53", Data: []byte("r")}
+						if p := kit.Catch(func() { m.feed(msg) }); p != "" {
+							tr.Ev(kit.E{"ev": "Panic", "what": "feed racing Close", "msg": p})
+							return
+						}
+					}
+				}()
+			}
+			for y := r.Intn(40); y > 0; y-- {
+				runtime.Gosched()
+			}
+			_ = uc.Close()
+			for y := r.Intn(10); y > 0; y-- {
+				runtime.Gosched()
+			}
+			close(stop)
+			wg.Wait()
+		}
+		tr.Probe("clifeed", true)
 	}
 	// send side
 	tr.Reset(kit.E{"src": "clisend"})
